@@ -71,6 +71,11 @@ def read_dump_parallel(path: str, pool) -> list[dict]:
     return out
 
 
+def EV(s: dict) -> tuple:
+    """The event of a model step + how the model says the call ended ("" or an exception class)."""
+    return tuple(s["h"]["ev"]) + (s["h"]["exc"],)
+
+
 def expected(s: dict) -> dict:
     """Projection of a model state comparable with Runner.observe()."""
     return {"shared": [list(x) for x in s["shared"]],
@@ -80,6 +85,7 @@ def expected(s: dict) -> dict:
 
 
 _CAT = None
+FIELDS = ("k", "z", "v", "n", "del", "exc", "view")
 
 
 def _run_many(jobs):
@@ -92,7 +98,7 @@ def _run_many(jobs):
     zones = list(ZMAP.values())
     inv = {v: k for k, v in ZMAP.items()}
     for hist, expect in jobs:
-        obs = X.run_history(_CAT, zones, [(k, ZMAP[z], v, n) for k, z, v, n in hist])
+        obs = X.run_history(_CAT, zones, [(e[0], ZMAP[e[1]], e[2], e[3]) for e in hist])
         drift = ""
         for o in obs:  # back to model zone names
             o["view"] = [[inv[z], x] for z, x in o["view"]]
@@ -107,9 +113,11 @@ def _run_many(jobs):
                     if o[fld] != e[fld]:
                         drift = f"step {n + 1} {hist[n]}: real {fld}={o[fld]} model {fld}={e[fld]}"
                         break
+                if not drift and len(hist[n]) > 4 and bool(o["exc"]) != bool(hist[n][4]):
+                    drift = f"step {n + 1} {hist[n]}: the real call ended with {o['exc'] or 'no exception'}, the model's with {hist[n][4] or 'none'}"
                 if drift:
                     break
-        res.append(([{k: o[k] for k in ("k", "z", "v", "n", "exc", "view")} for o in obs], drift))
+        res.append(([{k: o[k] for k in FIELDS} for o in obs], drift))
     return res
 
 
@@ -131,7 +139,7 @@ def _gateway_many(hists):
     inv = {v: k for k, v in ZMAP.items()}
     out = []
     for hist in hists:
-        view, lexc = X.run_history_gateway(_CAT, list(ZMAP.values()), [(k, ZMAP[z], v, n) for k, z, v, n in hist])
+        view, lexc = X.run_history_gateway(_CAT, list(ZMAP.values()), [(e[0], ZMAP[e[1]], e[2], e[3]) for e in hist])
         out.append(([[inv[z], x] for z, x in view], lexc))
     return out
 
@@ -140,8 +148,11 @@ def gateway_conformance(chk: Check, pool, label: str, hists: list, stub_obs: lis
     """A sample of the histories as a packet log replayed by a whole real Gateway (real dispatcher, Evohome,
     Zone/DhwZone): the final public views must equal the ones of the hand-dispatched Schedule objects;
     they are judged by TLC like the others (last step of the run replaced by the Gateway's view)."""
-    pick = list(range(0, len(hists), max(1, len(hists) // max(1, n))))[:n]
+    logs = [i for i, hsty in enumerate(hists) if all(e[0] == "frag" for e in hsty)]  # a packet log cannot fetch
+    pick = [logs[j] for j in range(0, len(logs), max(1, len(logs) // max(1, n)))][:n]
     sample = [hists[i] for i in pick]
+    if not sample:
+        return
     size = max(1, len(sample) // (WORKERS * 4))
     res = []
     for part in pool.map(_gateway_many, [sample[i:i + size] for i in range(0, len(sample), size)]):
@@ -167,10 +178,10 @@ def gateway_conformance(chk: Check, pool, label: str, hists: list, stub_obs: lis
 
 
 def slim(obs: list[dict]) -> dict:
-    return {"ev": [{k: o[k] for k in ("k", "z", "v", "n", "exc", "view")} for o in obs]}
+    return {"ev": [{k: o[k] for k in FIELDS} for o in obs]}
 
 
-ROOT = {"k": "init", "z": "-", "v": "-", "n": 0, "exc": "", "view": [["HW", "none"], ["Z1", "none"]]}
+ROOT = {"k": "init", "z": "-", "v": "-", "n": 0, "del": [], "exc": "", "view": [["HW", "none"], ["Z1", "none"]]}
 
 
 def IDENT(step: dict) -> tuple:
@@ -180,6 +191,8 @@ def IDENT(step: dict) -> tuple:
 def reasm_key(obs: list[dict], line: int, clause: str) -> str:
     o = obs[line - 1]
     if clause == "Raises":
+        if o["k"] == "fetch":  # class: the exception; the size of the schedule being fetched
+            return f"C17d-Raises:get_schedule:{o['exc']}:{'one' if NF_MODEL.get(o['v'], 0) == 1 else 'multi'}-fragment-schedule"
         return f"C17d-Raises:{o['exc']}"
     bad = [f"{z}={x if x in ('other',) or x.startswith('raises') else 'foreign-or-unreceived-version'}"
            for z, x in o["view"] if x not in ("none",)]
@@ -205,7 +218,7 @@ def judge_reasm(chk: Check, label: str, hists: list, all_obs: list, stats: dict)
                        "key": key, "source": label})
 
 
-def graph_conformance(chk: Check, pool, cfg: str, stats: dict, tmp: str, tlc_workers: int) -> None:
+def graph_conformance(chk: Check, pool, cfg: str, stats: dict, tmp: str, tlc_workers: int, gateway: bool = True) -> None:
     dump = os.path.join(tmp, cfg.replace(".cfg", ""))
     r = tlc.run_tlc("MC_SchedFrags", cfg, workers=tlc_workers, dump=dump, timeout=1500)
     stats["mc"][cfg] = {"generated": r.states, "distinct_transitions": r.distinct, "depth": r.depth,
@@ -228,7 +241,7 @@ def graph_conformance(chk: Check, pool, cfg: str, stats: dict, tmp: str, tlc_wor
         if s["h"]["ev"][0] == "init":
             init = k
         else:
-            edges.append((skey(s["h"]["pre"]), tuple(s["h"]["ev"]), k))
+            edges.append((skey(s["h"]["pre"]), EV(s), k))
     if init is None:
         raise tlc.MachineryFailure(f"{cfg}: no initial state in the dump")
     adj = collections.defaultdict(list)
@@ -278,7 +291,8 @@ def graph_conformance(chk: Check, pool, cfg: str, stats: dict, tmp: str, tlc_wor
     stats["drift_items"] += nd
     all_obs = [o for o, _ in res]
     judge_reasm(chk, cfg, hists, all_obs, stats)
-    gateway_conformance(chk, pool, cfg, hists, all_obs, stats["gateway_n"], stats)
+    if gateway:
+        gateway_conformance(chk, pool, cfg, hists, all_obs, stats["gateway_n"], stats)
     if hists:
         i = len(hists) // 2
         stats["samples"].append({"source": cfg, "events": [list(e) for e in hists[i]], "views": all_obs[i][-1]["view"]})
@@ -296,7 +310,7 @@ def sim_conformance(chk: Check, pool, cfg: str, num: int, length: int, stats: di
     hists, jobs, seen = [], [], set()
     for beh in behs:
         sts = [s for _, s in beh if "h" in s and s["h"]["ev"][0] != "init"]
-        hist = tuple(tuple(s["h"]["ev"]) for s in sts)
+        hist = tuple(EV(s) for s in sts)
         if not hist or hist in seen:
             continue
         seen.add(hist)
@@ -359,6 +373,12 @@ def gen_codec_inputs(tier: str, rng: random.Random) -> list[tuple[str, dict]]:
     # (4) boundaries: integer set-points (the validator coerces), extremes, ragged days
     out.append(("zon", X.zon_sched("00", [[("00:00", 5), ("23:55", 35)]])))
     out.append(("zon", X.zon_sched("0B", [[("00:00", 5.0)], [("00:05", 35.0), ("12:00", 20.01), ("23:55", 19.99)]])))
+    # (4b) the small end of the size dimension: the same single switch-point on every day of the week - what compresses
+    #      best (hot water: 37 bytes = ONE fragment; a zone: 42 bytes = two); every time of day (thorough) / every hour
+    for start in range(0, 288, 1 if tier == "thorough" else 12):
+        t = times_cycle(start, 1)
+        out.append(("dhw", X.dhw_sched([[(t[0], bool(start % 2))]])))
+        out.append(("zon", X.zon_sched(zones[start % 12], [[(t[0], 5.0 + (start % 61) * 0.5)]])))
     # (5) seeded random: ragged days, any grid set-point, any times
     for _ in range(300 if tier == "quick" else 12000):
         if rng.random() < 0.8:
@@ -433,6 +453,8 @@ def codec_half(chk: Check, pool, tier: str, stats: dict) -> None:
                       "times_covered": len({p[1] for row in rows for p in row["inp"]}),
                       "zones_covered": sorted({row["zone"] + ("/dhw" if row["kind"] == "dhw" else "") for row in rows}),
                       "max_fragments": max((len(row["lens"]) for row in rows), default=0),
+                      "min_fragments": min((len(row["lens"]) for row in rows if row["lens"]), default=0),
+                      "one_fragment_schedules": sum(1 for row in rows if len(row["lens"]) == 1),
                       "max_fragment_bytes": max((max(row["lens"]) for row in rows if row["lens"]), default=0)}
     stats["trace_states"] += r["states"]
     for idx, fail in r["rejects"]:
@@ -474,7 +496,7 @@ def do_replay(path: str) -> None:
         raise SystemExit(1)
     events = [tuple(e) for e in rp["events"]]
     inv = {v: k for k, v in ZMAP.items()}
-    full_obs = X.run_history(X.catalogue(), list(ZMAP.values()), [(k, ZMAP[z], v, n) for k, z, v, n in events])
+    full_obs = X.run_history(X.catalogue(), list(ZMAP.values()), [(e[0], ZMAP[e[1]], e[2], e[3]) for e in events])
     for n, (e, o) in enumerate(zip(events, full_obs), 1):
         print(f"  {n:2d} {e!s:28s} views={o['view']} payload sets: shared={o['shared']} own={o['own']} exc={o['exc']!r}")
     (obs, _), = _run_many([(events, None)])
@@ -520,18 +542,22 @@ def main(tier: str, replay: str | None) -> None:
                     cat = None
             if cat is not None and tier == "quick":
                 graph_conformance(chk, pool, "MC_SchedFrags.cfg", stats, tmp, 4)
+                graph_conformance(chk, pool, "MC_SchedFrags_f.cfg", stats, tmp, 4, gateway=False)
                 sim_conformance(chk, pool, "MC_SchedFrags_sim.cfg", 100, 40, stats, tmp)
             elif cat is not None:
                 graph_conformance(chk, pool, "MC_SchedFrags.cfg", stats, tmp, 4)
                 graph_conformance(chk, pool, "MC_SchedFrags_t.cfg", stats, tmp, 4)
+                graph_conformance(chk, pool, "MC_SchedFrags_f.cfg", stats, tmp, 4, gateway=False)
+                graph_conformance(chk, pool, "MC_SchedFrags_ft.cfg", stats, tmp, 4, gateway=False)
                 sim_conformance(chk, pool, "MC_SchedFrags_sim.cfg", 2000, 60, stats, tmp)
-                rb = tlc.run_tlc("MC_SchedFrags", "MC_SchedFrags_big.cfg", workers=4, timeout=1500, java_opts=["-Xmx3g"])
-                stats["mc"]["MC_SchedFrags_big.cfg"] = {"generated": rb.states, "distinct_transitions": rb.distinct,
-                                                        "depth": rb.depth, "violated": rb.violated, "wall_s": round(rb.wall_s, 1)}
-                if rb.errors or not rb.completed and not rb.violated:
-                    raise tlc.MachineryFailure(f"TLC MC_SchedFrags_big.cfg: {rb.errors[:3]}\n{rb.out[-1500:]}")
-                if rb.violated:
-                    chk.note(f"MC_SchedFrags_big.cfg: the model violates {rb.violated} (model-level candidate only; TLC-only instance)")
+                for big in ("MC_SchedFrags_big.cfg", "MC_SchedFrags_fbig.cfg"):  # TLC only (too large to replay edge by edge)
+                    rb = tlc.run_tlc("MC_SchedFrags", big, workers=4, timeout=1500, java_opts=["-Xmx3g"])
+                    stats["mc"][big] = {"generated": rb.states, "distinct_transitions": rb.distinct,
+                                        "depth": rb.depth, "violated": rb.violated, "wall_s": round(rb.wall_s, 1)}
+                    if rb.errors or not rb.completed and not rb.violated:
+                        raise tlc.MachineryFailure(f"TLC {big}: {rb.errors[:3]}\n{rb.out[-1500:]}")
+                    if rb.violated:
+                        chk.note(f"{big}: the model violates {rb.violated} (model-level candidate only; TLC-only instance)")
     finally:
         shutil.rmtree(tmp, ignore_errors=True)
     print(f"C17 {tier}: TLC instances: " + "; ".join(
